@@ -21,7 +21,21 @@ class EnvFault(Exception):
     pass
 
 
+class PairFault(Exception):
+    """An environment's own exception class whose constructor needs two arguments (error code, text) - not unusual for simulator back-ends."""
+
+    def __init__(self, code, text):
+        super().__init__(code, text)
+        self.code, self.text = code, text
+
+
+def make_fault(name: str, msg: str) -> BaseException:
+    cls = FAULT_EXCEPTIONS[name]
+    return cls(17, msg) if cls is PairFault else cls(msg)
+
+
 FAULT_EXCEPTIONS = {
+    "PairFault": PairFault,
     "ValueError": ValueError,
     "RuntimeError": RuntimeError,
     "KeyError": KeyError,
@@ -136,7 +150,7 @@ class ScriptPZ:
             return
         w.fired(k, f)
         if f["kind"] == "raise":
-            raise FAULT_EXCEPTIONS[f["exc"]](f["msg"])
+            raise make_fault(f["exc"], f["msg"])
         if f["kind"] == "sleep":
             w.slept(self.env_index, f["d"])
             w.sched.sleep(f["d"])
